@@ -7,6 +7,7 @@ import (
 	"errors"
 	"fmt"
 	"math/rand"
+	"net"
 	"time"
 
 	"github.com/aldas/go-modbus-client/server"
@@ -84,6 +85,16 @@ func gen(g *mon.Gen) {
 			fcs[j] = int(specref.FCs[rng.Intn(10)])
 		}
 		g.Emit(&Case{Layer: "B", Kind: "random", FCs: fcs, Seed: rng.Int63()})
+	}
+	// layer L: the same through ListenAndServe on the loopback interface (plausibility cross-check of layer B's in-memory
+	// transport: here the kernel decides how writes are segmented, pauses between writes make splitting likely)
+	for i := 0; i < g.Pick(8, 120); i++ {
+		k := 1 + rng.Intn(3)
+		fcs := make([]int, k)
+		for j := range fcs {
+			fcs[j] = int(specref.FCs[rng.Intn(10)])
+		}
+		g.Emit(&Case{Layer: "L", Kind: "random", FCs: fcs, Seed: rng.Int63()})
 	}
 }
 
@@ -257,6 +268,10 @@ func run(ci any, r *mon.Rec) {
 		runB(c, r, rng, frames, ref, h)
 		return
 	}
+	if c.Layer == "L" {
+		runL(c, r, rng, frames, ref, h)
+		return
+	}
 	switch c.Kind {
 	case "all":
 		for mask := c.Lo; mask < c.Hi; mask++ {
@@ -420,3 +435,84 @@ func runB(c *Case, r *mon.Rec, rng *rand.Rand, frames [][]byte, ref [][]byte, h 
 }
 
 func errTimeout(err error) error { return err }
+
+// runL: real TCP over loopback. Segmentation is suggested (TCP_NODELAY + pauses), not controlled, so only the
+// stream-level oracle applies: the bytes received equal the reference reply stream, nothing more, nothing less.
+func runL(c *Case, r *mon.Rec, rng *rand.Rand, frames [][]byte, ref [][]byte, h uint64) {
+	dev := simdev.New(devSeed(c), "srv")
+	s := &server.Server{OnErrorFunc: func(error) {}}
+	addrCh := make(chan net.Addr, 1)
+	s.OnServeFunc = func(a net.Addr) { addrCh <- a }
+	ctx, cancel := context.WithCancel(context.Background())
+	defer cancel()
+	served := make(chan error, 1)
+	go func() { served <- s.ListenAndServe(ctx, "127.0.0.1:0", srvx.DevHandler(dev, nil)) }()
+	var addr net.Addr
+	select {
+	case addr = <-addrCh:
+	case err := <-served:
+		r.Cover("layer", "L-unavailable: cannot listen on loopback: "+fmt.Sprint(err)) // cross-check only: skipped, not a verdict
+		return
+	case <-time.After(3 * time.Second):
+		r.Cover("layer", "L-unavailable: server did not start")
+		return
+	}
+	defer func() {
+		sctx, sc := context.WithTimeout(context.Background(), 3*time.Second)
+		_ = s.Shutdown(sctx)
+		sc()
+	}()
+	cli, err := net.DialTimeout("tcp", addr.String(), 2*time.Second)
+	if err != nil {
+		r.Cover("layer", "L-unavailable: dial: "+err.Error())
+		return
+	}
+	defer cli.Close()
+	if tc, ok := cli.(*net.TCPConn); ok {
+		_ = tc.SetNoDelay(true)
+	}
+	var all, want []byte
+	for j, f := range frames {
+		all = append(all, f...)
+		want = append(want, ref[j]...)
+	}
+	lock := rng.Intn(2) == 0
+	r.Eval(1)
+	var got []byte
+	if lock {
+		for j, f := range frames {
+			cut := 1 + rng.Intn(len(f)-1)
+			cli.Write(f[:cut])
+			time.Sleep(time.Duration(1+rng.Intn(8)) * time.Millisecond)
+			cli.Write(f[cut:])
+			rep, _ := srvx.ReadN(cli, len(ref[j]), 3*time.Second)
+			got = append(got, rep...)
+			if !bytes.Equal(rep, ref[j]) {
+				break
+			}
+		}
+	} else {
+		p := 0
+		for p < len(all) {
+			n := 1 + rng.Intn(40)
+			if p+n > len(all) {
+				n = len(all) - p
+			}
+			cli.Write(all[p : p+n])
+			p += n
+			if rng.Intn(3) == 0 {
+				time.Sleep(time.Duration(1+rng.Intn(6)) * time.Millisecond)
+			}
+		}
+		got, _ = srvx.ReadN(cli, len(want), 3*time.Second)
+	}
+	if !bytes.Equal(got, want) {
+		r.Violate(c, "loopback-stream-wrong", mon.Attrs{"layer": "L", "lockstep": lock}, fmt.Sprintf("stream fc%v over loopback (lockstep=%v): received %d bytes % x, want %d bytes % x", c.FCs, lock, len(got), head(got), len(want), head(want)))
+		return
+	}
+	if extra := srvx.Drain(cli, 30*time.Millisecond); len(extra) > 0 {
+		r.Violate(c, "surplus-bytes", mon.Attrs{"layer": "L"}, fmt.Sprintf("% x", head(extra)))
+	}
+	r.Distinct(mon.Mix(h, 0x4C, uint64(c.Seed)))
+	r.Cover("layer", "L-loopback")
+}
